@@ -177,6 +177,7 @@ func (a *Announce) getPeers(ctx context.Context, addr krpc.NodeAddr) traversal.Q
 		select {
 		case a.Peers <- peersValues:
 		case <-a.traversal.Stopped():
+		case <-ctx.Done():
 		}
 	}
 	return res.TraversalQueryResult(addr)
